@@ -7,8 +7,11 @@ pub mod conc;
 pub mod c02;
 pub mod c04;
 pub mod c05;
+pub mod c06;
 pub mod c07;
 pub mod c09;
+pub mod c10;
+pub mod c11;
 pub mod c12;
 pub mod c13;
 pub mod c14;
@@ -37,8 +40,11 @@ pub fn all() -> Vec<Scenario> {
         Scenario { name: "c02", plan: c02::plan, run: c02::run },
         Scenario { name: "c04", plan: c04::plan, run: c04::run },
         Scenario { name: "c05", plan: c05::plan, run: c05::run },
+        Scenario { name: "c06", plan: c06::plan, run: c06::run },
         Scenario { name: "c07", plan: c07::plan, run: c07::run },
         Scenario { name: "c09", plan: c09::plan, run: c09::run },
+        Scenario { name: "c10", plan: c10::plan, run: c10::run },
+        Scenario { name: "c11", plan: c11::plan, run: c11::run },
         Scenario { name: "c12", plan: c12::plan, run: c12::run },
         Scenario { name: "c13", plan: c13::plan, run: c13::run },
         Scenario { name: "c14", plan: c14::plan, run: c14::run },
